@@ -145,6 +145,15 @@ class Canon:
             if len(c) == 1:
                 return "%s%s" % (op, r(c[0]))
             if len(c) == 2:
+                # comparing a string with "" is asking whether it is empty
+                if op in ("==", "!="):
+                    for me, other in ((c[0], c[1]), (c[1], c[0])):
+                        lit = None
+                        for z in self.F.walk(other):
+                            if z.get("k") == "StringLiteral":
+                                lit = z
+                        if lit is not None and lit.get("v", None) == "" and sc(other).get("k") in ("StringLiteral", "CXXConstructExpr", "MaterializeTemporaryExpr", "ImplicitCastExpr", "CXXBindTemporaryExpr"):
+                            return ("%s.empty()" if op == "==" else "!%s.empty()") % r(me)
                 a, b = r(c[0]), r(c[1])
                 if op == ">":
                     a, b, op = b, a, "<"
